@@ -17,22 +17,18 @@ type GMonth struct {
 var _ objecttypes.Value = GMonth{}
 
 func MapGMonth(lexicalForm string) (GMonth, error) {
-	lexicalForm = xsdutil.WhiteSpaceCollapse(lexicalForm)
-
-	for _, layout := range []string{
+	parsed, layout, ok := parseTimeLexicalForm(xsdutil.WhiteSpaceCollapse(lexicalForm), gMonthLexicalRE,
 		"--01",
 		"--01Z07:00",
-	} {
-		parsed, err := time.Parse(layout, lexicalForm)
-		if err == nil {
-			return GMonth{
-				Time:   parsed,
-				Layout: layout,
-			}, nil
-		}
+	)
+	if !ok {
+		return GMonth{}, rdf.ErrLiteralLexicalFormNotValid
 	}
 
-	return GMonth{}, rdf.ErrLiteralLexicalFormNotValid
+	return GMonth{
+		Time:   parsed,
+		Layout: layout,
+	}, nil
 }
 
 func (v GMonth) AsObjectValue() rdf.ObjectValue {
